@@ -611,6 +611,7 @@ fn c15_exec(op: &MOp, r: &str, r2: &str) {
         };
     }
     match (op.fam.as_str(), op.op.as_str()) {
+        ("clock", ms) => clock::advance_ms(ms.parse().unwrap()),
         (_, "entry") | (_, "entryerr") => {
             if let Ok(e) = EntryBuilder::new(rs.clone()).with_args(Some(vec!["v".into()])).build() {
                 if op.op == "entryerr" {
@@ -671,6 +672,7 @@ pub struct C15Scn {
     pub name: String,
     pub threads: Vec<Vec<MOp>>,
     pub callback: String, // "", "listener", "generator"
+    pub setup: Vec<MOp>,  // sequential prelude (after the base rules are loaded)
 }
 
 fn mop(fam: &str, op: &str) -> MOp {
@@ -691,33 +693,40 @@ pub fn c15_scenarios(thorough: bool) -> Vec<C15Scn> {
                 // every pair of manager operations of the family, with an entry on the affected resource
                 let entry = if fam == "cb" { "entryerr" } else { "entry" };
                 v.push(C15Scn { name: format!("{}:{}+{}+entry", fam, a, b),
-                                threads: vec![vec![mop(fam, a)], vec![mop(fam, b)], vec![mop(fam, entry)]], callback: "".into() });
+                                threads: vec![vec![mop(fam, a)], vec![mop(fam, b)], vec![mop(fam, entry)]], callback: "".into(), setup: vec![] });
             }
         }
     }
     // across families
     for (fa, fb) in [("flow", "cb"), ("hot", "iso"), ("cb", "hot"), ("sys", "flow")] {
         v.push(C15Scn { name: format!("{}:loadB+{}:loadB+entry", fa, fb),
-                        threads: vec![vec![mop(fa, "loadB")], vec![mop(fb, "loadB")], vec![mop("cb", "entryerr")]], callback: "".into() });
+                        threads: vec![vec![mop(fa, "loadB")], vec![mop(fb, "loadB")], vec![mop("cb", "entryerr")]], callback: "".into(), setup: vec![] });
         v.push(C15Scn { name: format!("{}:append+{}:clear+entry", fa, fb),
-                        threads: vec![vec![mop(fa, "append")], vec![mop(fb, "clear")], vec![mop("cb", "entryerr")]], callback: "".into() });
+                        threads: vec![vec![mop(fa, "append")], vec![mop(fb, "clear")], vec![mop("cb", "entryerr")]], callback: "".into(), setup: vec![] });
     }
     // two-step programs (selected triples)
     for fam in ["flow", "hot", "cb"] {
         v.push(C15Scn { name: format!("{}:append,append+clear,loadA+entry", fam),
                         threads: vec![vec![mop(fam, "append"), mop(fam, "append")], vec![mop(fam, "clear"), mop(fam, "loadA")], vec![mop(fam, if fam == "cb" { "entryerr" } else { "entry" })]],
-                        callback: "".into() });
+                        callback: "".into(), setup: vec![] });
     }
     // call-backs into read-only manager functions
     v.push(C15Scn { name: "cb:listener-reads+loadB+entryerr".into(),
-                    threads: vec![vec![mop("cb", "entryerr")], vec![mop("cb", "loadB")]], callback: "listener".into() });
+                    threads: vec![vec![mop("cb", "entryerr")], vec![mop("cb", "loadB")]], callback: "listener".into(), setup: vec![] });
     v.push(C15Scn { name: "cb:listener-reads+clear+entryerr".into(),
-                    threads: vec![vec![mop("cb", "entryerr")], vec![mop("cb", "clear")]], callback: "listener".into() });
+                    threads: vec![vec![mop("cb", "entryerr")], vec![mop("cb", "clear")]], callback: "listener".into(), setup: vec![] });
+    // the probe of an Open breaker (its transition notifies the listeners from inside the entry's rule check)
+    // against a concurrent update of the breaker rules, with a listener that reads the manager
+    for b in ["loadB", "loadres", "append", "clear", "clearres"] {
+        v.push(C15Scn { name: format!("cb:probe-listener-reads+{}", b),
+                        threads: vec![vec![mop("cb", "entry")], vec![mop("cb", b)]], callback: "listener".into(),
+                        setup: vec![mop("cb", "entryerr"), mop("clock", "1001")] });
+    }
     if thorough {
         for fam in ["flow", "iso", "hot", "cb"] {
             for a in ["loadB", "loadres", "append", "clear"] {
                 v.push(C15Scn { name: format!("{}:{}+entry+entry", fam, a),
-                                threads: vec![vec![mop(fam, a)], vec![mop(fam, "entry")], vec![mop(fam, if fam == "cb" { "entryerr" } else { "entry" })]], callback: "".into() });
+                                threads: vec![vec![mop(fam, a)], vec![mop(fam, "entry")], vec![mop(fam, if fam == "cb" { "entryerr" } else { "entry" })]], callback: "".into(), setup: vec![] });
             }
         }
     }
@@ -810,7 +819,7 @@ pub fn run_c15(a: &Args) {
     if let Some(pair) = a.map.get("pair") {
         // an ad-hoc pair of operations "fam:op,fam:op" (a candidate of the model-level composition)
         let ops: Vec<MOp> = pair.split(',').map(|x| { let mut it = x.split(':'); mop(it.next().unwrap(), it.next().unwrap()) }).collect();
-        scenarios = vec![C15Scn { name: format!("pair:{}", pair), threads: ops.into_iter().map(|o| vec![o]).collect(), callback: "".into() }];
+        scenarios = vec![C15Scn { name: format!("pair:{}", pair), threads: ops.into_iter().map(|o| vec![o]).collect(), callback: "".into(), setup: vec![] }];
     }
     for (i, scn) in scenarios.into_iter().enumerate() {
         if (!only.is_empty() && only != scn.name && !scn.name.starts_with("pair:")) || (only.is_empty() && (i < from || i >= to)) {
@@ -831,6 +840,9 @@ pub fn run_c15(a: &Args) {
             lis.on.store(false, Ordering::SeqCst);
             c15_reset(&r);
             *lis.res.lock().unwrap() = r.clone();
+            for op in &scn.setup {
+                let _ = guarded(|| c15_exec(op, &r, &r2));
+            }
             lis.on.store(scn.callback == "listener", Ordering::SeqCst);
             let _ = rec.take();
             let mut bodies: Vec<Box<dyn FnOnce() + Send>> = Vec::new();
